@@ -11,11 +11,13 @@
 import ALV.Lemmas.C16Main
 import ALV.Lemmas.C16Gen
 import ALV.Lemmas.C16Ctl
+import ALV.Lemmas.C16X
+import ALV.Lemmas.C16XNext
 import ALV.Common.Audit
 
 namespace ALV.Props.C16
 open ALV.C16
-variable {α β : Type}
+variable {α β ε : Type}
 
 /-- **C16.0** the generator-level machine (objects with identity, summing pass then removal pass
 with `list.remove`, `count` incremented when the generator is resumed) shows, for every history,
@@ -193,6 +195,103 @@ theorem container_sizes [Add α] (zero : α) (keep : Bool) (ops : List (Op α))
   · have := live_sizes hlive
     simpa [absP, absQ, absPl] using this
 
+/-! ### operations that FAIL inside a history (`ALV.Model.C16X`: the machine with exceptions) -/
+
+/-- **C16.14** a failed `add` leaves no trace: whatever the state of the mixer (fresh, playing,
+suspended at a yield, finished), an `add(delta, data)` whose `iter(data)` raises `e` shows
+ValueError when `delta < 0` (that test comes first) and `e` otherwise, and the state — queue,
+playing list, the generator's clock `count`, keep — is the state before the call. -/
+theorem failed_add_leaves_no_trace [XAdd ε α] (zero : α) (s : PState (Except ε α)) (d : Rat) (e : ε) :
+    xstep zero s (.addFail d e) = (s, failObs d e) := by
+  by_cases hd : d < 0 <;> simp [xstep, xaddFail, failObs, hd]
+
+/-- … so, anywhere in a history, it changes no other observation and not the final state. -/
+theorem failed_add_anywhere [XAdd ε α] (zero : α) (s : PState (Except ε α)) (a b : List (XOp ε α))
+    (d : Rat) (e : ε) :
+    xrun zero s (a ++ .addFail d e :: b) =
+      ((xrun zero s (a ++ b)).1,
+       (xrun zero s a).2 ++ failObs d e :: (xrun zero (xrun zero s a).1 b).2) ∧
+    (xrun zero s (a ++ b)).2 = (xrun zero s a).2 ++ (xrun zero (xrun zero s a).1 b).2 := by
+  rw [xrun_append, xrun_append]
+  simp [xrun, failed_add_leaves_no_trace]
+
+/-- **C16.15** (refinement with exceptions).  For every history of good adds, failed adds, `next`s
+and assignments to keep, over items that are values or exceptions and a `+` that may raise, the
+machine with exceptions shows what the SPECIFICATION shows on the history WITHOUT the failed adds
+(items `Except ε α`, the lifted `+` in which the first exception wins), read through `xview`: a
+failed add shows its exception and nothing else; a sample whose closed-form sum is an exception
+`e` is the `next` that raises `e`; from then on the generator is finished — every `next` raises
+StopIteration, `add` still validates delta and `iter(data)`.  In particular the start times
+`max(⌈T_i − 1/2⌉, moment added)` and the end `max_i(start_i + len_i)` are those of the events that
+were really added. -/
+theorem streamix_x_eq_spec [XAdd ε α] (zero : α) (keep : Bool) (ops : List (XOp ε α)) :
+    (xrun zero (PState.init keep) ops).2 =
+      xview ops (srun (Except.ok zero : Except ε α) (SState.init keep) (erase ops)).2 := by
+  rw [xrun_eq_view, streamix_model_eq_spec]
+
+/-- **C16.16** the clock of the specification after a history with failures: `T` is the sum of
+the deltas of the adds that SUCCEEDED (rejected negative deltas and adds whose `iter(data)` raised
+contribute nothing), and the log has one event per successful add. -/
+theorem accepted_time_skips_failed_adds [XAdd ε α] (zero : α) (keep : Bool) (ops : List (XOp ε α)) :
+    (srun (Except.ok zero : Except ε α) (SState.init keep) (erase ops)).1.T = xAcceptedTime ops ∧
+    (srun (Except.ok zero : Except ε α) (SState.init keep) (erase ops)).1.evs.length =
+      ((erase ops).filter Op.accepted).length := by
+  have h := srun_T (Except.ok zero : Except ε α) (erase ops) (SState.init keep)
+  rw [xAcceptedTime_erase] at h
+  simpa [SState.init] using h
+
+/-- **C16.17** a `next` that raised something else than StopIteration has finished the generator:
+every later operation shows what it shows on a finished mixer (`next`: StopIteration). -/
+theorem raise_kills [XAdd ε α] (zero : α) (s : PState (Except ε α)) (e : ε)
+    (h : (xstep zero s .next).2 = .raised e) (ops : List (XOp ε α)) :
+    (xrun zero (xstep zero s .next).1 ops).2 = ops.map deadObs := by
+  have hend : (xstep zero s .next).1.ended = true := by
+    rcases xnext_spec zero s with ⟨_, h2, h3⟩ | ⟨_, _, _, _, h3⟩
+    · exfalso
+      simp only [xstep] at h
+      rw [h] at h2
+      generalize (pnext (Except.ok zero : Except ε α) s).2 = o at h2 h3
+      cases o with
+      | out v k =>
+        cases v with
+        | error e' => exact h3 e' k rfl
+        | ok v => simp [conv] at h2
+      | ok => simp [conv] at h2
+      | valueError => simp [conv] at h2
+      | stop => simp [conv] at h2
+    · exact h3
+  exact (xrun_ended zero ops _ hend).1
+
+/-- **C16.18** what a sample is when items may raise: the closed-form sum over `Except ε α` with
+the lifted `+` is the sum evaluated in the order the events were added, stopping at the first
+exception (`xsum`); when every item is a value and `+` never raises it is the ordinary sum. -/
+theorem sample_with_exceptions [XAdd ε α] (zero : α) (n : Nat) (evs : List (SEv (Except ε α))) :
+    outAt (Except.ok zero : Except ε α) n evs = xsum zero (evs.filterMap (term n)) :=
+  foldl_lift_eq_xsum _ zero
+
+theorem sample_without_exceptions [Add α] [XAdd ε α]
+    (htot : ∀ a b : α, XAdd.xadd (ε := ε) a b = .ok (a + b)) (zero : α) (n : Nat) (evs : List (SEv α)) :
+    outAt (Except.ok zero : Except ε α) n (evs.map SEv.lift) = .ok (outAt zero n evs) :=
+  outAt_lift htot zero n evs
+
+/-- **C16.19** (the next sample after any history WITH failed operations, in closed form).  If no
+read has raised so far, one more `next` raises StopIteration iff the stream had ended or keep is off
+and every event that was REALLY added is over (`max_i(start_i + len_i) ≤ n`), and otherwise shows the
+closed-form sum of the items due — as a value, or as the exception it is (`conv`). -/
+theorem next_after_history_with_failures [XAdd ε α] (zero : α) (keep : Bool) (ops : List (XOp ε α))
+    (hal : NoRaise (srun (Except.ok zero : Except ε α) (SState.init keep) (erase ops)).2) :
+    (xrun zero (PState.init keep) (ops ++ [.next])).2 =
+      (xrun zero (PState.init keep) ops).2 ++
+        [conv (if (srun (Except.ok zero : Except ε α) (SState.init keep) (erase ops)).1.dead = true ∨
+            ((srun (Except.ok zero : Except ε α) (SState.init keep) (erase ops)).1.keep = false ∧
+              mixLength (srun (Except.ok zero : Except ε α) (SState.init keep) (erase ops)).1.evs ≤
+                (srun (Except.ok zero : Except ε α) (SState.init keep) (erase ops)).1.n)
+         then .stop
+         else outObs (Except.ok zero : Except ε α)
+                (srun (Except.ok zero : Except ε α) (SState.init keep) (erase ops)).1.evs
+                (srun (Except.ok zero : Except ε α) (SState.init keep) (erase ops)).1.n)] :=
+  x_next_after_history zero keep ops hal
+
 /-! non-vacuity: the statements are about non-trivial inputs -/
 
 -- the docstring example: [-1, 1, 4, 1, -3, -5, -7, -1], then the end
@@ -238,6 +337,47 @@ example : (prun (0 : Int) (PState.init false) [.add 0 [1, 1, 1], .add 5 [2], .ne
   decide +kernel
 -- negative_delta_rejected: the hypothesis is satisfiable
 example : ((-1 : Rat)/2) < 0 := by norm_num
+
+/-! exceptions: `Int` items with a `+` that raises on a negative right operand (stand-in for a TypeError) -/
+instance : XAdd String Int := ⟨fun a b => if b < 0 then .error "TypeError" else .ok (a + b)⟩
+-- the missed seed's history: add(0,[1,1]); add(3, None) -> TypeError; add(1,[5,5]); list(smix) = [1, 6, 5]
+example : (xrun (ε := String) (0 : Int) (PState.init false)
+    [.add 0 [.ok 1, .ok 1], .addFail 3 "TypeError", .add 1 [.ok 5, .ok 5], .next, .next, .next, .next]).2
+    = [.ok, .raised "TypeError", .ok, .out 1 1, .out 6 1, .out 5 0, .stop] := by decide +kernel
+-- a negative delta wins over the bad data; a failing add during playback
+example : (xrun (ε := String) (0 : Int) (PState.init true)
+    [.add (1/2) [.ok 7], .next, .addFail (-1) "TypeError", .addFail (5/2) "IndexError", .add (7/2) [.ok 8], .next,
+     .next, .next, .next, .next]).2
+    = [.ok, .out 7 1, .valueError, .raised "IndexError", .ok, .out 0 0, .out 0 0, .out 0 0, .out 8 1, .out 0 0] := by
+  decide +kernel
+-- an event iterator that raises in the middle, and an addition that raises: the mixer is dead afterwards
+example : (xrun (ε := String) (0 : Int) (PState.init true)
+    [.add 0 [.ok 1, .error "KeyError", .ok 3], .add 0 [.ok 10, .ok 10, .ok 10], .next, .next, .next, .add 0 [.ok 1],
+     .next]).2
+    = [.ok, .ok, .out 11 2, .raised "KeyError", .stop, .ok, .stop] := by decide +kernel
+example : (xrun (ε := String) (0 : Int) (PState.init false)
+    [.add 0 [.ok 1, .ok (-2)], .add 0 [.error "KeyError"], .next, .next, .next]).2
+    = [.ok, .ok, .raised "KeyError", .stop, .stop] := by decide +kernel
+example : (xrun (ε := String) (0 : Int) (PState.init false) [.add 0 [.ok 1, .ok (-2)], .next, .next, .next]).2
+    = [.ok, .out 1 1, .raised "TypeError", .stop] := by decide +kernel
+-- raise_kills: the hypothesis is satisfiable
+example : (xstep (ε := String) (0 : Int)
+    (xrun (ε := String) (0 : Int) (PState.init false) [.add 0 [.ok (-2)]]).1 .next).2 = .raised "TypeError" := by
+  decide +kernel
+-- next_after_history_with_failures: a history with a failed add in which no read raised
+example : NoRaise (srun (Except.ok (0 : Int) : Except String Int) (SState.init false)
+    (erase [.add 0 [.ok 1, .ok 1], .addFail 3 "TypeError", .next])).2 := by
+  have h : (srun (Except.ok (0 : Int) : Except String Int) (SState.init false)
+      (erase [.add 0 [.ok 1, .ok 1], .addFail 3 "TypeError", .next])).2 = [.ok, .out (.ok 1) 1] := by
+    decide +kernel
+  intro e k hm
+  rw [h] at hm
+  simp at hm
+-- the clock counts successful adds only
+example : xAcceptedTime ([.add 1 [], .addFail 3 "TypeError", .add (-1) [], .add (1/2) [.ok 1]] : List (XOp String Int))
+    = 3/2 := by decide +kernel
+-- sample_without_exceptions: a total `+`
+example : ∀ a b : Nat, (⟨fun a b => .ok (a + b)⟩ : XAdd String Nat).xadd a b = .ok (a + b) := fun _ _ => rfl
 
 end ALV.Props.C16
 
